@@ -96,9 +96,12 @@ def build_parts(case, tmp):
                                   activity=activity, targets=targets, extra_sensors=extra,
                                   cbid=str(1600000000 + p),
                                   pols=('vh' if multi and spec.get('sub') else 'hv'),
-                                  center_freq=1284e6 + 16e6 * (spec.get('spw', 0) if multi else 0))
+                                  # window 1 differs in centre frequency, window 2 only in the correlator product
+                                  center_freq=1284e6 + (16e6 if multi and spec.get('spw', 0) == 1 else 0.0),
+                                  sub_product=('bc856M4k' if multi and spec.get('spw', 0) == 2 else 'c856M4k'))
             pt.vis = syn.stored['correlator_data']
             pt.flags = syn.stored['flags'] != 0
+            pt.flags_raw = syn.stored['flags']
             pt.weights = (syn.stored['weights'] * syn.stored['weights_channel'][..., None]).astype(np.float32)
             pt.timestamps, pt.freqs = syn.timestamps, syn.freqs
             pt.corrprods = [tuple(c) for c in syn.corrprods]
@@ -113,6 +116,7 @@ def build_parts(case, tmp):
                                   extra_sensors=extra, open=False)
             pt.path = path
             pt.vis, pt.flags, pt.weights = syn.vis, syn.flags_raw != 0, syn.weights
+            pt.flags_raw = None
             pt.timestamps, pt.freqs = np.asarray(syn.timestamps), np.asarray(syn.freqs)
             pt.corrprods = [tuple(c) for c in syn.corrprods]
             pt.dataset = None
@@ -294,6 +298,24 @@ def drive(ctx, case, parts, d):
                 return f'timerange selected dumps {dumps} instead of {want}', spanned
         if op['kind'] == 'dumpsmask' and dumps != np.nonzero(kw['dumps'])[0].tolist():
             return 'dumps mask spanning the parts was not applied as given', spanned
+        if all(p.flags_raw is not None for p in chrono) and rng.random() < 0.5 and dumps and chans and cpidx:
+            # a flag selection on the combined data set selects in every part what it selects there
+            names = rng.choice(['cam', 'static,ingest_rfi', 'data_lost', 'cal_rfi,cam,predicted_rfi', ''])
+            flag_names = ('reserved0', 'static', 'cam', 'data_lost', 'ingest_rfi', 'predicted_rfi', 'cal_rfi', 'postproc')
+            mask = sum(1 << flag_names.index(nm) for nm in names.split(',') if nm)
+            raw = np.concatenate([p.flags_raw for p in chrono])[np.ix_(dumps, chans, cpidx)]
+            try:
+                d.select(flags=names)
+                got = np.asarray(d.flags[:])
+                d.select(flags='all')
+            except Exception as e:   # noqa: BLE001
+                return f'select(flags={names!r}) on the combined data set raised {type(e).__name__}: {str(e)[:80]}', spanned
+            ctx.tag('flags-selection-on-combined')
+            if not np.array_equal(got, (raw & np.uint8(mask)) != 0):
+                return (f'select(flags={names!r}) on the combined data set: {int(got.sum())} samples flagged, the stored '
+                        f'flag bytes of the parts have those bits at {int(((raw & np.uint8(mask)) != 0).sum())}'), spanned
+            if [int(x) for x in d.dumps] != dumps or [int(x) for x in d.channels] != chans:
+                return 'a flag selection on the combined data set changed the time / frequency selection', spanned
         blk = [a[np.ix_(dumps, chans, cpidx)] for a in (vis, flags, weights)]
         if tuple(int(x) for x in d.shape) != blk[0].shape:
             return f'shape {tuple(d.shape)} after select != {blk[0].shape}', spanned
@@ -303,6 +325,21 @@ def drive(ctx, case, parts, d):
         n = len(dumps)
         head = rng.choice([ixgen.gen_slice(rng, n, allow_neg_step=False, wild=False), ixgen.gen_mask(rng, n),
                            ixgen.gen_inc_list(rng, n), ixgen.gen_int(rng, n) if n else FULL, FULL])
+        if n >= 2 and rng.random() < 0.2:
+            # an integer list that is increasing inside every part but comes back to an earlier part after a later one
+            groups = {}
+            for r, g in enumerate(dumps):
+                groups.setdefault(int(np.searchsorted(offs, g, side='right')), []).append(r)
+            picks = [[r for r in rows_ if rng.random() < 0.6] for rows_ in groups.values()]
+            picks = [p for p in picks if p]
+            if len(picks) >= 2:
+                merged = []
+                while any(picks):
+                    p = rng.choice([p for p in picks if p])
+                    merged.append(p.pop(0))
+                if merged != sorted(merged):
+                    head = ('l', merged)
+                    ctx.tag('head-list-interleaved-across-parts')
         tail = [rng.choice([FULL, ixgen.gen_slice(rng, m, allow_neg_step=False, wild=False)]) for m in blk[0].shape[1:]]
         k2 = [head] + tail
         line = f"spec {ixgen.enc_shape(list(blk[0].shape))} - {ixgen.enc_tuple(k2)}"
